@@ -1,12 +1,16 @@
-"""C02 — simulation-based check (real executor code on the simulated kernel) + monitors."""
+"""C02 — Coq theorems over coq/Model/Pool.v (lists regenerated from the source) + simulation of the real executor code with monitors."""
 from checks import simcommon as S
 
 FAMILIES = ['kill', 'fatal', 'latekill', 'resize']
 PER_FAMILY = (300, 6000)
 
 
+PROOF = S.pool_proof('C02', ['C02_loud_before_any_broken_future', 'C02_broken_pool_refuses', 'C02_death_fails_everything_loudly', 'C02_manager_gone_means_all_settled', 'C02_refuted_with_resize', 'C02_structure'],
+                    "detection itself (the sentinel of a dead worker becomes ready) is the OS's; the identity of the failed futures is Model/TokenFlow.v's; exit codes in the message are not modelled")
+
+
 def run(ctx):
-    return S.sim_check(ctx, FAMILIES, FAMILIES, PER_FAMILY, S.SIM_ASSUME)
+    return S.sim_check(ctx, FAMILIES, FAMILIES, PER_FAMILY, S.SIM_ASSUME, proof=PROOF)
 
 
 def replay(ctx, path):
